@@ -32,7 +32,7 @@ COMPONENTS = {
              "csv", "io.TextIOWrapper/BufferedReader", "zipfile", "xml.etree.ElementTree", "xlrd"],
     "stub": ["SimFS/SimRaw", "text / ODF / XLSX peers (encoders)", "scheduler-driven client (eager / lazy)"],
 }
-PROBES_REQUIRED = ["zero-item-row", "error-inspected-late", "culprit-last-column", "culprit-right-after-header", "short-row", "long-row",
+PROBES_REQUIRED = ["second-pass-on-the-same-reader", "zero-item-row", "error-inspected-late", "culprit-last-column", "culprit-right-after-header", "short-row", "long-row",
                    "format:delimited", "format:fixed", "format:ods", "format:excel", "check-rejection"]
 
 
@@ -55,6 +55,7 @@ def generate(seed, tier):
     return {"io": simfs.IoConfig.draw(swarm), "cid": spec, "table": table, "source": source,
             "api": swarm.choice(["Reader", "rows"]),
             "consumer": {"style": swarm.choice(["eager", "lazy"]), "lag": swarm.choice([1, 2, 3, 100])},
+            "prepass": swarm.choice([None, None, None, 0, 1, 2, -1]) if source == "path" else None,
             "ods_features": sorted(swarm.sample(["colruns", "colstyle", "stored", "utf16"], swarm.randint(0, 2)))}
 
 
@@ -85,6 +86,18 @@ def execute(scenario):
         else:
             source = path
         run = lib.ReadRun(cid, source, scenario.get("api", "Reader"), "yield")
+        prepass = scenario.get("prepass")
+        if prepass is not None and scenario.get("api", "Reader") == "Reader" and source_kind == "path":
+            # the same Reader object has been iterated before (k rows, or completely): the judged pass starts over
+            earlier = run.reader.rows()
+            taken = 0
+            for _ in earlier:
+                taken += 1
+                if prepass >= 0 and taken >= prepass:
+                    break
+            del earlier
+            run.generator = run.reader.rows()
+            result.probe("second-pass-on-the-same-reader")
 
         def inspect(minimum_age):
             nonlocal mutated
@@ -183,6 +196,8 @@ def candidates(scenario):
         yield lib.with_value(scenario, ["consumer"], {"style": "eager", "lag": 1})
     if scenario.get("source") != "path":
         yield lib.with_value(scenario, ["source"], "path")
+    if scenario.get("prepass") is not None:
+        yield lib.with_value(scenario, ["prepass"], None)
     if scenario.get("api") != "Reader":
         yield lib.with_value(scenario, ["api"], "Reader")
     if scenario["cid"].get("line_delimiter", "lf") != "lf":
